@@ -239,6 +239,9 @@ func (g *c5gen) newSubject() *subject {
 		if n == 1 {
 			n = 2
 		}
+		if t.Choose(4) == 3 {
+			n = t.Range(9, 13) // beyond the 8 entries a Go map keeps in one group
+		}
 		for i := 0; i < n; i++ {
 			s.elems = append(s.elems, elem{fmt.Sprintf("k%d_%d", id, i), fmt.Sprintf("v%d_%d", id, i)})
 		}
@@ -889,6 +892,11 @@ func c5vars(subs []*subject, mixed []*c5mixed, ifaces []*c5iface, p *Probes, cha
 
 func RunC05(env *sim.Env) {
 	t := env.Tape
+	if t.Choose(10) == 9 {
+		// one run in ten is a re-entrant program judged by a reference model (c05rec.go)
+		runC05Recursive(env)
+		return
+	}
 	g := &c5gen{t: t, useChan: t.Choose(4) == 3, useTry: t.Choose(3) == 2, budget: 14 + 6*t.Choose(3)}
 	prog := g.list(0, 4)
 	var sb strings.Builder
